@@ -597,3 +597,20 @@ pub fn shipped_for_mc(max_bytes: usize) -> Vec<(String, String, Sys)> {
         .cloned()
         .collect()
 }
+
+/// a system for checks whose oracle does not enumerate states: wide values, more states/inputs
+pub fn gen_huge_system(rng: &mut Rng, mut tweak: impl FnMut(&mut GenCfg)) -> Sys {
+    loop {
+        let mut cfg = GenCfg::swarm(rng, 16, 8);
+        cfg.huge = true;
+        cfg.max_state_bits = 2048;
+        cfg.max_input_bits = 1024;
+        cfg.division = false;
+        tweak(&mut cfg);
+        let sys = generate(rng, &cfg);
+        if sys.bads.is_empty() {
+            continue;
+        }
+        return sys;
+    }
+}
